@@ -12,7 +12,8 @@ State: D (document) -> G -> P -> k children (k <= 2 quick / 3 thorough; Element 
 element child with a grandchild; every attached node registered in the order vector in pre-order; ids SYMBOLIC, pairwise
 distinct, non-zero.  Receiver P.  Argument: a new detached node (element, element with a child, text, comment, attribute),
 a child of P, the grandchild, P itself, the ancestor G, a node of another document.  Reference: none, a child, a
-stranger.  Stubs: owner_document (document identity), Context::node (id -> registered item).
+stranger.  Stubs: owner_document (document identity); Context::node / add_item over a model of the id table in which the
+registered item of an id resolves only while some child vector (or the context) owns it - what Weak::upgrade does.
 
 Obligations (decided by z3 on every path):
   C13  outcome = the DOM Level 1 class (WrongDocument, HierarchyRequest, NotFound or success), the child lists after a
@@ -72,7 +73,11 @@ def build(kinds, gc):
             st.document = None
         o = K.mk_obj(INFO_T[kind], K.INFO, **fields)
         it = K.mk_enum("XmlItem", K.INFO, kind, o)
-        registry.append((st.ids[name], it))
+        # the id table (Context.id_map) holds a WEAK reference to the item registered for this id.  For a parsed node that is
+        # the very item its parent's child vector owns; for a node made by a DOM factory it is an item that nobody owns any
+        # more once the factory has returned (the dom handle keeps only the inner node).
+        registered = it if attached or kind == "Document" else K.mk_enum("XmlItem", K.INFO, kind, o)
+        registry.append([st.ids[name], registered])
         st.nodes[name] = (it, o, info)
         st.kind[name] = kind
         st.tree[name] = []
@@ -102,13 +107,22 @@ def dom_node(st, name):
     return K.mk_enum("XmlNode", K.DOM, st.kind[name], K.mk_obj(domt, K.DOM, **{field: o}))
 
 
-def choose(st, who, idx, gc):
-    """materialise the argument node; -> name or None when the choice does not exist in this shape"""
+def choose(st, who, idx, gc, I=None):
+    """materialise the argument node; -> name or None when the choice does not exist in this shape.
+    With an interpreter the detached subtree is built by the real append_child, as a caller would."""
     if who[0] == "new":
         kd = who[1]
         if kd == "ElementWithChild":
             st.mk("new", "Element", None, attached=False)
-            st.mk("newchild", "Element", "new", attached=False)
+            if I is None:
+                st.mk("newchild", "Element", "new", attached=False)
+            else:
+                st.mk("newchild", "Element", None, attached=False)
+                r = I.try_repo_method(K.mk_obj("XmlElement", K.DOM, element=st.nodes["new"][1]), "append_child", [dom_node(st, "newchild")])
+                if not (isinstance(r, Enum) and r.variant == "Ok"):
+                    raise kernel.Unsupported("building the detached subtree failed: %s" % r)
+                st.tree["new"] = ["newchild"]
+                st.parent["newchild"] = "new"
         else:
             st.mk("new", kd, None, attached=False)
         return "new"
@@ -177,6 +191,8 @@ def err_class(r):
 
 
 def work(job):
+    if job[1] == "created_parent":
+        return work_created((job[0], job[2], job[3]))
     prop, kinds, gc, action, who, new_idx, ref_sel, timeout_s = job
     out = {"job": job[1:7], "status": "holds", "paths": 0, "queries": 0, "error": None, "fns": {}, "skipped": False}
     t0 = time.time()
@@ -188,25 +204,43 @@ def work(job):
         I.assume(z3.And(*st0.cons))
         holder = {}
 
+        def alive(st, item):
+            """Weak::upgrade: somebody still owns the registered item - a child vector, or the context (the document)"""
+            if item.variant == "Document":
+                return True
+            for _, o, _ in st.nodes.values():
+                if any(x is item for x in o.fields.get("children", ())):
+                    return True
+            return False
+
         def ctx_node(I, ctx, id_):
             for key, it in ctx.fields["registry"]:
                 if I.truth(kstd.v_eq(I, key, id_)):
-                    return Some(it)
+                    return Some(it) if alive(holder["st"], it) else NONE
             return NONE
+
+        def add_item(I, ctx, item):
+            me = ctx.fields["info"].fields["id"]
+            for ent in ctx.fields["registry"]:
+                if ent[0] is me or (hasattr(ent[0], "eq") and hasattr(me, "eq") and ent[0].eq(me)):
+                    ent[1] = item
+                    return kernel.UNIT
+            ctx.fields["registry"].append([me, item])
+            return kernel.UNIT
 
         def owner_doc(I, recv):
             for v in recv.fields.values():
                 if isinstance(v, Obj) and "_doc" in v.fields:
                     return Some(v.fields["_doc"])
             return NONE
-        I.mstubs = {("Context", "node"): ctx_node, ("Context", "document"): lambda I, c: holder["st"].document}
+        I.mstubs = {("Context", "node"): ctx_node, ("Context", "document"): lambda I, c: holder["st"].document, ("Context", "add_item"): add_item}
         for domt, _ in DOM_T.values():
             I.mstubs[(domt, "owner_document")] = owner_doc
 
         def thunk(I):
             st = build(kinds, gc)
             holder["st"] = st
-            new = choose(st, who, new_idx, gc) if action != "remove_child" else None
+            new = choose(st, who, new_idx, gc, I) if action != "remove_child" else None
             if ref_sel is None:
                 ref = None
             elif ref_sel == "stranger":
@@ -345,6 +379,101 @@ def work(job):
     return out
 
 
+def work_created(job):
+    """a parent made by a DOM factory: c is appended to it, asked for its parent, then moved to P (three real calls)"""
+    prop, attach_first, timeout_s = job
+    out = {"job": ((), None, "created_parent", ("attached" if attach_first else "detached",), None, None), "status": "holds", "paths": 0, "queries": 0,
+           "error": None, "fns": {}, "skipped": False}
+    t0 = time.time()
+    try:
+        I = K.new_interp("debug", max_paths=4000)
+        I.track_borrows = True
+        st0 = build((), None)
+        I.assume(z3.And(*st0.cons))
+        holder = {}
+
+        def alive(st, item):
+            if item.variant == "Document":
+                return True
+            return any(any(x is item for x in o.fields.get("children", ())) for _, o, _ in st.nodes.values())
+
+        def ctx_node(I, ctx, id_):
+            for key, it in ctx.fields["registry"]:
+                if I.truth(kstd.v_eq(I, key, id_)):
+                    return Some(it) if alive(holder["st"], it) else NONE
+            return NONE
+
+        def add_item(I, ctx, item):
+            me = ctx.fields["info"].fields["id"]
+            for ent in ctx.fields["registry"]:
+                if ent[0] is me or ent[0].eq(me):
+                    ent[1] = item
+                    return kernel.UNIT
+            return kernel.UNIT
+
+        def owner_doc(I, recv):
+            for v in recv.fields.values():
+                if isinstance(v, Obj) and "_doc" in v.fields:
+                    return Some(v.fields["_doc"])
+            return NONE
+        I.mstubs = {("Context", "node"): ctx_node, ("Context", "document"): lambda I, c: holder["st"].document, ("Context", "add_item"): add_item}
+        for domt, _ in DOM_T.values():
+            I.mstubs[(domt, "owner_document")] = owner_doc
+
+        def thunk(I):
+            st = build((), None)
+            holder["st"] = st
+            st.mk("new", "Element", None, attached=False)
+            st.mk("newchild", "Element", None, attached=False)
+            dom = lambda n: K.mk_obj("XmlElement", K.DOM, element=st.nodes[n][1])
+            steps = []
+            if attach_first:
+                steps.append(I.try_repo_method(dom("P"), "append_child", [dom_node(st, "new")]))
+            steps.append(I.try_repo_method(dom("new"), "append_child", [dom_node(st, "newchild")]))
+            par = I.try_repo_method(st.nodes["newchild"][1], "parent_item", [])
+            steps.append(I.try_repo_method(dom("P"), "append_child", [dom_node(st, "newchild")]))
+            kids = {n: [x.fields[0].fields["_name"] for x in o.fields["children"]] for n, (it, o, info) in st.nodes.items() if "children" in o.fields}
+            return (steps, par, kids, st.nodes["new"][1])
+        paths = I.explore(thunk)
+        out["paths"] = len(paths)
+
+        def post(p):
+            if p["kind"] == "panic":
+                return prop != "C12" and False
+            steps, par, kids, new_o = p["value"]
+            if not all(isinstance(r, Enum) and r.variant == "Ok" for r in steps):
+                return False
+            parent_ok = isinstance(par, Enum) and par.variant == "Some" and isinstance(par.fields[0], Enum) and par.fields[0].fields[0] is new_o
+            return bool(parent_ok and kids["new"] == [] and kids["P"] == ((["new"] if attach_first else []) + ["newchild"]))
+        verdict, info, nq = K.decide(I, paths, post, timeout_s)
+        out["queries"] = nq + I.feas_queries
+        out["fns"] = K.fn_table(I)
+        out["want"] = "ok"
+        if verdict == "sat":
+            mdl, p = info
+            out["status"] = "sat"
+            w = {"kinds": (), "gc": None, "action": "created_parent", "new": ("attached" if attach_first else "detached",), "ref": None, "specified": "ok"}
+            if p["kind"] == "panic":
+                w["panic"] = p["msg"]
+            else:
+                steps, par, kids, new_o = p["value"]
+                w["parent_of_c"] = "resolved" if (isinstance(par, Enum) and par.variant == "Some") else "none"
+                w["children_after"] = kids
+            out["witness"] = w
+        elif verdict == "unknown":
+            out["status"] = "unknown"
+            out["error"] = str(info)
+    except (kernel.Unsupported, nomsem.Unsupported) as e:
+        out["status"] = "unsupported"
+        out["error"] = str(e)
+    except Exception:
+        import traceback
+        out["status"] = "unsupported"
+        out["error"] = "exception: " + traceback.format_exc()[-900:]
+    out["wall"] = time.time() - t0
+    return out
+
+
 # ---- replay through the DOM API ------------------------------------------------------------------------------------
 
 def render(kinds, gc):
@@ -380,6 +509,8 @@ def label_of(name, kinds, who):
 
 
 def replay_case(w):
+    if w["action"] == "created_parent":
+        return {"op": "created_parent", "attach_first": w["new"][0] == "attached", "input": "<r/>"}
     kinds, gc, action = tuple(w["kinds"]), w["gc"], w["action"]
     who = tuple(w["new"])
     newj = None
@@ -415,6 +546,8 @@ def expected_real(w):
 def judge(case, out):
     if "panic" in out or "died" in out:
         return True
+    if case.get("op") == "created_parent":
+        return not (out.get("parent_of_c") == "p" and out.get("p_children_after_move") == [] and out.get("root_children_after_move", [])[-1:] == ["c"])
     want = case.get("specified")
     if want == "ok":
         if not out.get("ok"):
@@ -455,6 +588,8 @@ def jobs_for(prop, tier):
                     jobs.append((prop, kinds, gc, "replace_child", who, idx, ref, 120))
         for ref in refs[1:]:
             jobs.append((prop, kinds, gc, "remove_child", ("none",), None, ref, 120))
+    if prop == "C12":
+        jobs += [(prop, "created_parent", True, 120), (prop, "created_parent", False, 120)]
     return jobs
 
 
@@ -504,7 +639,7 @@ def obligations(rep, rp, prop, tier, jobs_n=16):
                 rep.replays += 1
                 full = dict(case)
                 full.update({"property": prop, "specified": w["specified"]})
-                if "specified_children" in w:
+                if "specified_children" in w and w["action"] != "created_parent":
                     kids, walk = expected_real(w)
                     if prop == "C13":
                         full["expected_children"] = kids
@@ -523,9 +658,13 @@ def obligations(rep, rp, prop, tier, jobs_n=16):
             elif confirmed:
                 w, full, rr = confirmed
                 status = "violated"
-                rep.violation(oid + "." + cls, full, "%s(%s, %s) on <p> of %s: specified %s, model %s, real code %s" % (
-                    action, json.dumps(full.get("new")), json.dumps(full.get("ref")), full["input"], w["specified"],
-                    w.get("panic") or w.get("result"), {k: rr.get(k) for k in ("ok", "err", "panic", "after", "all_after") if k in rr}))
+                if action == "created_parent":
+                    rep.violation(oid + "." + cls, full, "p = create_element (%s to <r>), p.append_child(c), then r.append_child(c): c.parent_node() is %s and p still lists %s afterwards (document: %s) - the id table no longer resolves the created parent" % (
+                        "appended" if full.get("attach_first") else "not appended", rr.get("parent_of_c"), rr.get("p_children_after_move"), rr.get("printed")))
+                else:
+                    rep.violation(oid + "." + cls, full, "%s(%s, %s) on <p> of %s: specified %s, model %s, real code %s" % (
+                        action, json.dumps(full.get("new")), json.dumps(full.get("ref")), full["input"], w["specified"],
+                        w.get("panic") or w.get("result"), {k: rr.get(k) for k in ("ok", "err", "panic", "after", "all_after") if k in rr}))
                 reported.append((cls, "violated"))
             else:
                 if status == "holds":
@@ -538,6 +677,8 @@ def obligations(rep, rp, prop, tier, jobs_n=16):
 def classify(prop, w):
     """role of the failing call, so that a listed finding does not hide a different one"""
     who = w["new"][0] if w["new"] else "none"
+    if w["action"] == "created_parent":
+        return "created-parent:%s" % who
     if w.get("panic"):
         return "panic:%s" % who
     if prop == "C14":
